@@ -70,7 +70,17 @@ Inductive policy :=
 | PReadOnly (d : Z)               (* ReadOnly / ReadOnly(d): getattr_trait / setattr_readonly; d = Undefined unless given *)
 | PConstant (c : Z)               (* Constant(c)         getattr_constant / setattr_constant *)
 | PEvent (k : option vkind)       (* Event() / Event(Int): getattr_event / setattr_event, optional validator *)
-| PTyped (k : vkind) (d : Z).     (* Int(d) / Str(d)     getattr_trait / setattr_trait with validator *)
+| PTyped (k : vkind) (d : Z)      (* Int(d) / Str(d)     getattr_trait / setattr_trait with validator *)
+| PMap (m : list (Z * Z)) (d : Z) (* Map(m, default_value=d): is_mapped, validate = key of m, post_setattr sets name_ *)
+| PShadow (m : list (Z * Z)).     (* mapped_trait_for(Map(m), name): Any whose default is m[getattr(obj, name)] *)
+
+Fixpoint zassoc (k : Z) (m : list (Z * Z)) : option Z :=
+  match m with [] => None | (a, b) :: r => if Z.eqb a k then Some b else zassoc k r end.
+(* traits that bring a sub-trait with them (handler.is_mapped) *)
+Definition mapped_of (p : policy) : option (list (Z * Z)) :=
+  match p with PMap m _ => Some m | _ => None end.
+Definition plainp (p : policy) : bool :=
+  match p with PMap _ _ | PShadow _ => false | _ => true end.
 
 (* ---------- insertion-ordered dictionaries (Python dict) ---------- *)
 Section Assoc.
@@ -112,7 +122,10 @@ Definition own_step (acc : ctab * ptab) (d : name * policy) : ctab * ptab :=
   let '(ct, pt) := acc in
   let '(n, p) := d in
   if ends_us n then (ct, aset (removelast n) p pt)     (* l.506-508 *)
-  else (aset n p ct, pt).                              (* l.468 *)
+  else match mapped_of p with                          (* l.468; l.488-491: class_traits[name + "_"] *)
+       | Some m => (aset (n ++ [US]) (PShadow m) (aset n p ct), pt)
+       | None => (aset n p ct, pt)
+       end.
 Definition own_tables (decls : list (name * policy)) : ctab * ptab :=
   fold_left own_step decls ([], []).
 
@@ -167,7 +180,9 @@ Inductive op :=
 | OGet (n : name) | OSet (n : name) (v : Z) | ODel (n : name)
 | OAdd (n : name) (p : policy) | ORem (n : name).
 
-Record obs := mkObs { o_out : outcome; o_stored : option Z }.   (* obj.__dict__.get(name) afterwards *)
+(* o_stored / o_shadow / o_base: obj.__dict__.get of name, of name + "_", and of name[:-1]
+   (when name ends in '_') afterwards: the names one operation on name can touch *)
+Record obs := mkObs { o_out : outcome; o_stored : option Z; o_shadow : option Z; o_base : option Z }.
 
 Record state := mkState {
   s_ctd : ctab;                  (* obj->ctrait_dict = type(obj).__class_traits__, grows by caching *)
@@ -202,14 +217,17 @@ Section Object.
          end.
 
   Definition set_od (s : state) (od : list (name * Z)) : state := mkState (s_ctd s) (s_itd s) od.
-  Definition out (s : state) (n : name) (o : outcome) : state * obs := (s, mkObs o (assoc n (s_od s))).
+  Definition out (s : state) (n : name) (o : outcome) : state * obs :=
+    (s, mkObs o (assoc n (s_od s)) (assoc (n ++ [US]) (s_od s))
+              (if ends_us n then assoc (removelast n) (s_od s) else None)).
 
   (* trait->getattr when the name is not in obj.__dict__ *)
   Definition getattr (s : state) (n : name) (p : policy) : state * obs :=
     match p with
     | PPython => out s n (Raise AttributeError)                 (* getattr_python: GenericGetAttr *)
-    | PAny d | PTyped _ d | PReadOnly d =>                      (* getattr_trait l.1978-1984: default stored *)
-        out (set_od s (aset n d (s_od s))) n (Val d)
+    | PAny d | PTyped _ d | PReadOnly d | PMap _ d =>           (* getattr_trait l.1978-1984: default stored *)
+        out (set_od s (aset n d (s_od s))) n (Val d)            (* (PMap: post_setattr is added by [getattr_m]) *)
+    | PShadow _ => out s n (Raise OtherError)                   (* handled by [getattr_m] *)
     | PDisallow => out s n (Raise AttributeError)               (* getattr_disallow *)
     | PEvent _ => out s n (Raise AttributeError)                (* getattr_event *)
     | PConstant c => out s n (Val c)                            (* getattr_constant *)
@@ -218,7 +236,13 @@ Section Object.
   (* trait->setattr with a value *)
   Definition setattr (s : state) (n : name) (p : policy) (v : Z) : state * obs :=
     match p with
-    | PPython | PAny _ => out (set_od s (aset n v (s_od s))) n Done
+    | PPython | PAny _ | PShadow _ => out (set_od s (aset n v (s_od s))) n Done
+    | PMap m _ =>                                               (* validate_trait_map; post_setattr: [setattr_m] *)
+        if Z.eqb v VUndef then out (set_od s (aset n v (s_od s))) n Done
+        else match zassoc v m with
+             | Some _ => out (set_od s (aset n v (s_od s))) n Done
+             | None => out s n (Raise TraitError)
+             end
     | PTyped k _ =>                                             (* setattr_trait l.2444-2454 *)
         if Z.eqb v VUndef then out (set_od s (aset n v (s_od s))) n Done   (* Undefined is not validated *)
         else match validate k v with
@@ -250,7 +274,8 @@ Section Object.
     match p with
     | PPython => if amem n (s_od s) then out (set_od s (adel n (s_od s))) n Done
                  else out s n (Raise AttributeError)            (* setattr_python l.2199-2210 *)
-    | PAny _ | PTyped _ _ => out (set_od s (adel n (s_od s))) n Done   (* setattr_trait l.2391-2405 *)
+    | PAny _ | PTyped _ _ | PMap _ _ | PShadow _ =>
+        out (set_od s (adel n (s_od s))) n Done                 (* setattr_trait l.2391-2405 *)
     | PDisallow => out s n (Raise TraitError)
     | PConstant _ => out s n (Raise TraitError)
     | PReadOnly _ => out s n (Raise TraitError)                 (* delete_readonly_error *)
@@ -267,28 +292,103 @@ Section Object.
               end
     end.
 
-  Definition step (s : state) (o : op) : state * obs :=
-    match o with
-    | OGet n =>                                                  (* has_traits_getattro l.836-884 *)
-        match assoc n (s_od s) with
-        | Some v => out s n (Val v)                             (* l.845-858: value in obj.__dict__ *)
+  (* remove_trait l.2885-2905 for a trait without sub-traits: if _trait(name, 0) finds an instance
+     or class trait, the value leaves obj.__dict__ and the instance trait (if any) is deleted *)
+  Definition rem1 (s : state) (n : name) : state :=
+    match assoc n (s_itd s) with
+    | Some _ => mkState (s_ctd s) (adel n (s_itd s)) (adel n (s_od s))
+    | None => if amem n (s_ctd s) then set_od s (adel n (s_od s)) else s
+    end.
+
+  (* ----- mapped traits (trait_types.Map l.3095-3190, trait_converters.mapped_trait_for) -----
+     One level of nesting is modelled: the assignment obj.<name_> = m[value] made by
+     Map.post_setattr and the read getattr(obj, name) made by the shadow's default run the
+     full look-up with the plain handlers above; a Map whose shadow name is itself governed
+     by a Map is cut there (never generated). *)
+  Definition nested_set (s : state) (m : name) (w : Z) : state * option exn :=
+    match lookup_set s m with
+    | inl (p, s') => let '(s'', ob) := setattr s' m p w in
+                     (s'', match o_out ob with Raise e => Some e | _ => None end)
+    | inr e => (s, Some e)
+    end.
+  (* Map.post_setattr l.3183: setattr(object, name + "_", self.mapped_value(value)); KeyError if no key *)
+  Definition post_map (s : state) (n : name) (m : list (Z * Z)) (v : Z) : state * option exn :=
+    match zassoc v m with
+    | None => (s, Some OtherError)
+    | Some w => nested_set s (n ++ [US]) w
+    end.
+
+  (* has_traits_getattro l.836-884 with the handler [ga] for the trait found *)
+  Definition get_with (ga : state -> name -> policy -> state * obs) (s : state) (n : name) : state * obs :=
+    match assoc n (s_od s) with
+    | Some v => out s n (Val v)                                 (* l.845-858: value in obj.__dict__ *)
+    | None =>
+        match assoc n (s_itd s) with
+        | Some p => ga s n p
         | None =>
-            match assoc n (s_itd s) with
-            | Some p => getattr s n p
-            | None =>
-                match assoc n (s_ctd s) with
-                | Some p => getattr s n p
-                | None =>                                       (* GenericGetAttr fails: no class attribute *)
-                    match prefix_trait s n false with
-                    | inl (p, s') => getattr s' n p
-                    | inr e => out s n (Raise e)
-                    end
+            match assoc n (s_ctd s) with
+            | Some p => ga s n p
+            | None =>                                           (* GenericGetAttr fails: no class attribute *)
+                match prefix_trait s n false with
+                | inl (p, s') => ga s' n p
+                | inr e => out s n (Raise e)
                 end
             end
         end
+    end.
+
+  (* getattr_trait of a Map: default stored (l.1978-1984), then post_setattr (l.1988-1994) *)
+  Definition getattr_map (s : state) (n : name) (m : list (Z * Z)) (d : Z) : state * obs :=
+    let '(s1, e) := post_map (set_od s (aset n d (s_od s))) n m d in
+    match e with Some x => out s1 n (Raise x) | None => out s1 n (Val d) end.
+  Definition getattr0 (s : state) (n : name) (p : policy) : state * obs :=
+    match p with PMap m d => getattr_map s n m d | _ => getattr s n p end.
+  (* the shadow's callable default (_mapped_trait_default): m[getattr(obj, name)], stored (l.1978-1984) *)
+  Definition getattr_m (s : state) (n : name) (p : policy) : state * obs :=
+    match p with
+    | PShadow m =>
+        let '(s1, ob) := get_with getattr0 s (removelast n) in
+        match o_out ob with
+        | Val x => match zassoc x m with
+                   | Some w => out (set_od s1 (aset n w (s_od s1))) n (Val w)
+                   | None => out s1 n (Raise OtherError)        (* KeyError *)
+                   end
+        | Raise e => out s1 n (Raise e)
+        | Done => out s1 n (Raise OtherError)
+        end
+    | _ => getattr0 s n p
+    end.
+
+  (* setattr_trait l.2444-2550 for a Map (post_setattr <> NULL) *)
+  Definition setattr_m (s : state) (n : name) (p : policy) (v : Z) : state * obs :=
+    match p with
+    | PMap m d =>
+        if negb (Z.eqb v VUndef) && match zassoc v m with Some _ => false | None => true end
+        then out s n (Raise TraitError)                         (* l.2447-2451 *)
+        else
+          (* l.2480-2512: old value; a missing one is the default, stored and post_setattr'ed *)
+          let '(s1, old, e1) :=
+            match assoc n (s_od s) with
+            | Some o => (s, o, None)
+            | None => let '(s', e) := post_map (set_od s (aset n d (s_od s))) n m d in (s', d, e)
+            end in
+          match e1 with
+          | Some x => out s1 n (Raise x)
+          | None =>
+              let s2 := set_od s1 (aset n v (s_od s1)) in       (* l.2520 *)
+              if Z.eqb old v then out s2 n Done                 (* l.2515-2517, 2533: not changed *)
+              else let '(s3, e) := post_map s2 n m v in         (* l.2535-2541 *)
+                   match e with Some x => out s3 n (Raise x) | None => out s3 n Done end
+          end
+    | _ => setattr s n p v
+    end.
+
+  Definition step (s : state) (o : op) : state * obs :=
+    match o with
+    | OGet n => get_with getattr_m s n
     | OSet n v =>
         match lookup_set s n with
-        | inl (p, s') => setattr s' n p v
+        | inl (p, s') => setattr_m s' n p v
         | inr e => out s n (Raise e)
         end
     | ODel n =>
@@ -296,14 +396,26 @@ Section Object.
         | inl (p, s') => delattr s' n p
         | inr e => out s n (Raise e)
         end
-    | OAdd n p =>                                           (* add_trait l.2838: itrait_dict[name] = trait *)
-        out (mkState (s_ctd s) (aset n p (s_itd s)) (s_od s)) n Done
+    | OAdd n p =>
+        (* add_trait l.2829-2830: the shadow first, self.add_trait(name + "_", mapped_trait_for(..));
+           l.2838: itrait_dict[name] = trait *)
+        let itd := match mapped_of p with
+                   | Some m => aset (n ++ [US]) (PShadow m) (s_itd s)
+                   | None => s_itd s
+                   end in
+        out (mkState (s_ctd s) (aset n p itd) (s_od s)) n Done
     | ORem n =>                                          (* remove_trait l.2885-2905 *)
-        match assoc n (s_itd s) with
-        | Some _ => out (mkState (s_ctd s) (adel n (s_itd s)) (adel n (s_od s))) n (Val 1)
-        | None => if amem n (s_ctd s)                           (* _trait(name, 0) finds the class trait *)
-                  then out (set_od s (adel n (s_od s))) n (Val 0)
-                  else out s n (Val 0)
+        let found := match assoc n (s_itd s) with Some p => Some p | None => assoc n (s_ctd s) end in
+        match found with
+        | None => out s n (Val 0)                               (* _trait(name, 0) is None *)
+        | Some p =>
+            (* l.2893-2894: if handler.is_mapped: self.remove_trait(name + "_") *)
+            let s1 := match mapped_of p with
+                      | Some _ => rem1 s (n ++ [US])
+                      | None => s
+                      end in
+            let r := amem n (s_itd s1) in
+            out (rem1 s1 n) n (Val (if r then 1 else 0))
         end
     end.
 
